@@ -1024,9 +1024,22 @@ struct Finding {
 
 /// Lay the view out under every constraint and render it into a canvas with a sentinel border.
 fn drive_view(prefix: &str, view: &dyn View, findings: &mut Vec<Finding>, evals: &mut u64) {
-    let ctx = ViewContext::dummy();
+    drive_view_ctx(prefix, view, &ViewContext::dummy(), constraints().to_vec(), findings, evals);
+    // contexts of terminals that report odd pixel sizes (none at all, one dimension only, fewer pixels than cells
+    // in one dimension), with and without glyph support: two constraints each
+    for (i, (glyphs, pixels)) in [(true, Size::new(0, 0)), (false, Size::new(0, 720)), (true, Size::new(432, 0)), (true, Size::new(10, 720)), (false, Size::new(480, 800))].into_iter().enumerate() {
+        let term = super::c09::CtxTerm::with_sizes(glyphs, Size::new(24, 80), pixels);
+        if let Ok(ctx) = ViewContext::new(&term) {
+            let cts = vec![BoxConstraint::loose(Size::new(5, 12)), BoxConstraint::tight(Size::new(2, 3))];
+            drive_view_ctx(&format!("{prefix}:terminal-context-{i}"), view, &ctx, cts, findings, evals);
+        }
+    }
+}
+
+fn drive_view_ctx(prefix: &str, view: &dyn View, ctx: &ViewContext, cts: Vec<BoxConstraint>, findings: &mut Vec<Finding>, evals: &mut u64) {
+    let ctx = ctx.clone();
     let sentinel = Cell::new_char(Face::default(), '\u{2592}');
-    for ct in constraints() {
+    for ct in cts {
         *evals += 1;
         let stage = StdCell::new("layout");
         let res = catch(|| -> Result<Option<String>, surf_n_term::Error> {
